@@ -240,8 +240,15 @@ func (c *C) Finish(verifDir string, start time.Time, seed int, spec *PropSpec) i
 	// samples: up to 14, spread over rules
 	var samples []any
 	perRule := map[string]int{}
+	funcs := map[string]bool{}
 	for _, o := range c.Obs {
-		if perRule[o.Rule] >= 3 || len(samples) >= 14 {
+		if o.Func != "-" && o.Func != "" {
+			funcs[o.Func] = true
+		}
+	}
+	c.Counts["functions_analysed"] = len(funcs)
+	for _, o := range c.Obs {
+		if perRule[o.Rule] >= 3 || len(samples) >= 14 || o.Rule == "COUNT" {
 			continue
 		}
 		perRule[o.Rule]++
